@@ -3,6 +3,7 @@ pub mod c01;
 pub mod c02;
 pub mod c03;
 pub mod c04;
+pub mod c05;
 pub mod c06;
 pub mod c07;
 pub mod c09;
@@ -23,6 +24,7 @@ pub fn run(id: &str, tier: Tier, seed: u64) -> i32 {
         "C02" => c02::run(tier, seed),
         "C03" => c03::run(tier, seed),
         "C04" => c04::run(tier, seed),
+        "C05" => c05::run(tier, seed),
         "C06" => c06::run(tier, seed),
         "C07" => c07::run(tier, seed),
         "C09" => c09::run(tier, seed),
@@ -48,6 +50,7 @@ pub fn replay(id: &str, case: &serde_json::Value) -> CaseResult {
         "C02" => c02::replay(case),
         "C03" => c03::replay(case),
         "C04" => c04::replay(case),
+        "C05" => c05::replay(case),
         "C06" => c06::replay(case),
         "C07" => c07::replay(case),
         "C09" => c09::replay(case),
